@@ -69,6 +69,14 @@ def run(chk):
         es += [["sum", [f(K, k=X), g(K, X)]], ["sum", [g(K, X), g(K, Yv)]], ["prod", [f(K), ["sum", [X, f(K)]]]],
                ["sum", [["pow", ["sum", [K, X]], ["c", 2]], ["prod", [X, K]]]], ["sum", [["prod", [X, f(K)]], ["quot", Yv, f(K)]]],
                g(["sum", [K, X]], ["sum", [K, Yv]]), ["sum", [f(X, k=K), f(Yv, k=K, m=K)]]]
+    # flat (n-ary) constant products and sums with a leading literal where the generic hoist sees them: call arguments,
+    # keyword values, bases and exponents
+    for lit in (-1, 2):
+        for op in ("prod", "sum"):
+            K3 = [op, [["c", lit], Z, W]]
+            K4 = [op, [["c", lit], Z, W, ["v", "y"]]]
+            es += [f(K3, k=X), g(K3, X), f(X, k=K3), ["sum", [X, f(K3)]], ["pow", K3, ["c", 2]], ["prod", [X, ["pow", K3, ["c", 2]]]],
+                   g(K4, X), ["sum", [f(K4), X]]]
     cases = []
     for e in es:
         vs = exprgen.data_vars(e) + (["arr"] if "arr" in exprs.variables(e) else [])
